@@ -34,7 +34,7 @@ var Families = []string{
 	"json", "json_trunc", "json_bad", "geojson", "har", "gltf", "json_deep", "json_nest", "json_wide", "json_esc",
 	"ndjson", "ndjson_bad", "csv", "csv_ragged", "csv_big", "tsv",
 	"png", "gif", "pdf", "zip", "docx", "ole", "elf", "gzip", "random", "empty",
-	"shebang", "svg", "rtf", "srt", "vcard", "bom8", "utf8", "tar", "sample", "corpus", "poison",
+	"shebang", "svg", "rtf", "srt", "vcard", "bom8", "utf8", "tar", "sample", "corpus", "poison", "tar_poly", "overlay",
 }
 
 // SampleDir is the directory of real sample files (the repository's testdata);
@@ -290,6 +290,16 @@ func (in Input) base() []byte {
 	case "html_meta":
 		labels := []string{"utf-8", "ISO-8859-2", "windows-1251", "Shift_JIS", "koi8-r", "x-user-defined"}
 		pad := strings.Repeat(" ", clamp(p, 0, 1<<16))
+		if v%len(labels) == 5 && v < 2*len(labels) {
+			// one meta element that declares the charset twice, in conflicting ways (with and
+			// without the pragma): whatever decides between them must decide the same way every time
+			tags := []string{
+				`<meta http-equiv="Content-Type" content="text/html; charset=koi8-r" charset="utf-8">`,
+				`<meta charset="windows-1251" content="text/html; charset=iso-8859-2">`,
+				`<meta content="text/html; charset=shift_jis" charset="euc-kr" http-equiv="content-type">`,
+			}
+			return []byte("<!DOCTYPE html>\n" + strings.Repeat(" ", clamp(p, 0, 1<<16)) + "<html><head>" + tags[(uint64(clamp(v, 0, 1<<30)/len(labels))+in.Seed)%uint64(len(tags))] + "<title>t</title></head><body>" + string(textN(clamp(n, 0, 1<<16), in.Seed)) + "</body></html>")
+		}
 		label := labels[v%len(labels)]
 		if v >= 2*len(labels) {
 			// a label of its own: the declared charset is taken from the input, so the set of
@@ -480,6 +490,36 @@ func (in Input) base() []byte {
 		return tarHeader(names[v%len(names)], clamp(n, 0, 1<<20))
 	case "sample":
 		return append([]byte(nil), sample(clamp(v, 0, 1<<30)+clamp(p, 0, 1<<30))...)
+	case "tar_poly":
+		// a valid tar archive whose first member is named after the leading bytes of another
+		// format's sample: an early signature of one format inside a format recognised late
+		lead := corpus(clamp(v, 0, 1<<30))
+		k := clamp(p, 2, 24)
+		if k > len(lead) {
+			k = len(lead)
+		}
+		name := make([]byte, 0, k+8)
+		for _, c := range lead[:k] {
+			if c == 0 {
+				break // the name field ends at the first NUL
+			}
+			name = append(name, c)
+		}
+		return tarHeader(string(name)+"-x.bin", clamp(n, 0, 1<<16))
+	case "overlay":
+		// the sample of one format with its first bytes replaced by those of another
+		// (formats recognised at an offset - 128, 257, 32769 - under an early signature)
+		a := corpus(clamp(v, 0, 1<<30))
+		b := append([]byte(nil), corpus(clamp(p, 0, 1<<30))...)
+		k := clamp(n, 1, 64)
+		if k > len(a) {
+			k = len(a)
+		}
+		if k > len(b) {
+			b = append(b, make([]byte, k-len(b))...)
+		}
+		copy(b, a[:k])
+		return b
 	case "corpus":
 		// the repository's own sample for some format, optionally followed by n bytes of text
 		// (p selects: 0 as is, 1 padded with text, 2 padded with zero bytes)
